@@ -154,7 +154,9 @@ CLAIMS["C12"] = dict(text="bounded symbolic model checking of the encodable kern
                     "path condition); (b) Borealis.update_params: for symbolic loop offsets and user phases, 38 time bins (thorough 80), every subset of "
                     "user-set loops, each compensated phase lies in [-pi/2, pi/2] and is congruent mod pi to user phase + offset*floor(j/delay) minus the "
                     "previous loop's correction (QF_LIRA with floor atoms), user-set loops and non-phase parameters untouched; (c) Program.assert_modes / "
-                    "TDMProgram.assert_modes: CircuitError <=> a measurement count / shape exceeds the device's, symbolic limits", design_ref="5/C12",
+                    "TDMProgram.assert_modes: CircuitError <=> a measurement count / shape exceeds the device's, symbolic limits; (d) Xunitary.compile on squeezer-only "
+                    "4-mode programs (repeated, literal-zero and symbolic possibly-zero squeezers, missing pairs; identity interferometer): CircuitError or "
+                    "the device layout S2 S2|MZ R R|MZ R R|MeasureFock with exactly the source's net symplectic action", design_ref="5/C12",
                     note=NOTE + "; PARTIAL: layout conformance (networkx VF2 + blackbird template matching on concrete parameters) and preservation of photon statistics by "
                                 "Xunitary/Xcov (Takagi/Bloch-Messiah via LAPACK, MZ-mesh queries undecided within the cap) are outside this technique's reach and NOT claimed")
 NA_DEFAULT = "check not built yet in this session (plan: DESIGN.md section 5)"
